@@ -31,7 +31,7 @@ class C07(P.Property):
     real_stub = dict(deployment="as C09; additionally the scheme API is called directly (local branch) on the same inputs")
     assumptions = ["a setup or search that raises ends that branch without a verdict (after checking that the inputs are intact)"]
     probe_names = ["scheme_" + s for s in fe.SCHEMES] + ["local_branch", "server_branch", "multi_connection", "repeat_keyword", "absent_keyword",
-                                                          "server_index_compared", "nondefault_config", "decoy_service", "stored_key", "scheme_object_reused", "token_untouched", "token_reused", "stored_config"]
+                                                          "server_index_compared", "nondefault_config", "decoy_service", "stored_key", "scheme_object_reused", "token_untouched", "token_reused", "stored_config", "kept_result_reread"]
 
     def setup(self):
         world.setup_frontend()
@@ -191,6 +191,7 @@ class C07(P.Property):
         ser0 = E.serialize()
         pristine = lambda: L.SSEEncryptedDatabase.deserialize(ser0, S.config)
         answers = {}
+        kept_results = []
         for i, st in enumerate(plan["steps"]):
             w = st["w"].encode("utf-8")
             how = st.get("tok")
@@ -202,7 +203,9 @@ class C07(P.Property):
                     tser = S.TokenGen(K, w).serialize()
                 else:
                     tser = tk.serialize()
-                got = S.Search(E, tk).get_result_list()
+                robj = S.Search(E, tk)
+                got = robj.get_result_list()
+                kept_results.append((i, robj, list(got)))  # the caller keeps its result objects: what they say must not change later
                 again = S.Search(E, tk).get_result_list() if how == "reused" else None
             except Exception as e:
                 if how:
@@ -241,6 +244,19 @@ class C07(P.Property):
                 return
         if E.serialize() != ser0:
             viol.append(V("C07.edb", "INPUT_MUTATED", "the encrypted database object changed during the search history (serialization differs)", site="local-edb"))
+        for i, robj, was in kept_results:
+            try:
+                now = robj.get_result_list()
+            except Exception as e:
+                now = e
+            if isinstance(now, Exception) or not same_result(now, was) or len(now) != len(was):
+                probes["kept_result_reread"] = 1
+                viol.append(V("C07.repeat", "WRONG_RESULT", f"the result object of search {i} said {len(was)} identifiers when it was returned and "
+                                                            f"{len(now) if not isinstance(now, Exception) else repr(now)[:40]} after the later searches "
+                                                            f"(searches share state)", site="local-result-object"))
+                break
+        if kept_results:
+            probes["kept_result_reread"] = 1
         if not viol and not out.get("inconclusive"):
             # the same history once more on an index that was loaded from its serialized form, keeping every result alive
             E2 = pristine()
